@@ -1,4 +1,6 @@
 """Contracts for waitress/adjustments.py (C20): validation logic of Adjustments.__init__."""
+import re
+
 import z3
 
 from vlib.contract import *
@@ -40,7 +42,7 @@ def install(reg):
     con.frame_check = False
     con.cuts = [
         Cut("for k, v in kw.items():", [("C20-at-most-one-exclusive-group-accepted", "groups(kw) <= 1")]),
-        Cut("if self.trusted_proxy_count is not None and self.trusted_proxy is None:", []),
+        Cut(re.compile(r"^if self\.trusted_proxy_count\b"), []),          # the first proxy cross-check, however its condition is spelt
         Cut("self.listen = wanted_sockets", [
             ("C20-count-needs-trusted_proxy", "implies(self.trusted_proxy is None, old(self.trusted_proxy_count) is None)"),
             ("C20-headers-need-trusted_proxy", "implies(self.trusted_proxy is None, not old(bool(self.trusted_proxy_headers)))"),
@@ -50,6 +52,7 @@ def install(reg):
         ]),
     ]
     con.only_segments = [0, 2]
+    con.max_paths = 8000       # 2^6 subsets of header kinds x presence of count / proxy: the default budget is just enough for the current code
 
     def eng_segment(eng):
         from vlib.pyvc import VInt
